@@ -1,7 +1,8 @@
 // Unit objlayers: the layered object representation.  Extracted verbatim from program/data.rs:
 // ObjectData (struct + get_layer, find_field, has_field, get_fields_order,
 // get_visible_fields_order, has_visible_field), ObjectLayer, ObjectField, ObjectFieldData,
-// Program::{extend_object, object_with_field_removed}, extend_object_clone_field / _layer.
+// Program::{extend_object, object_with_field_removed}, extend_object_clone_field / _layer; and from
+// program/eval/stdlib.rs the builtin Evaluator::do_std_object_remove_key (std.objectRemoveKey).
 // Hand-written environment: Gc (Rc), interned strings (small ids, ordered by id), FHashMap bound
 // to an association list (shim/vecmap.rs; the extracted text uses only get / iter / collect /
 // default on it).
@@ -27,8 +28,21 @@ pub struct GcView<T>(pub *const T);
 impl<T> std::ops::Deref for GcView<T> { type Target = T; fn deref(&self) -> &T { unsafe { &*self.0 } } }
 pub struct ThunkEnv<'p>(pub PhantomData<&'p ()>);
 pub struct ThunkData<'p>(pub u8, pub PhantomData<&'p ()>);
-pub struct Program<'p>(pub PhantomData<&'p ()>);
+impl<T> From<&GcView<T>> for Gc<T> { fn from(v: &GcView<T>) -> Self { Gc(v.0) } }
+// shim interner: the names "a" / "b" are interned as ids 1 / 2, nothing else is
+pub struct StrInterner;
+impl StrInterner { pub fn get_interned<'p>(&self, s: &str) -> Option<InternedStr<'p>> { if s == "a" { Some(InternedStr(1, PhantomData)) } else if s == "b" { Some(InternedStr(2, PhantomData)) } else { None } } }
+pub struct Program<'p> { pub str_interner: StrInterner, pub _p: PhantomData<&'p ()> }
 impl<'p> Program<'p> { fn gc_alloc<T>(&mut self, v: T) -> Gc<T> { Gc::new(v) } }
+pub enum ValueData<'p> { Null, String(Rc<str>), Object(Gc<ObjectData<'p>>) }
+pub struct EvalError;
+type EvalResult<T> = Result<T, Box<EvalError>>;
+pub struct Evaluator<'a, 'p> { program: &'a mut Program<'p>, value_stack: Vec<ValueData<'p>> }
+impl<'a, 'p> Evaluator<'a, 'p> {
+    // shims of the argument-type checks: the right type is unwrapped, anything else is the type error
+    fn expect_std_func_arg_object(&self, v: ValueData<'p>, _f: &str, _i: usize) -> EvalResult<GcView<ObjectData<'p>>> { match v { ValueData::Object(o) => Ok(o.view()), _ => Err(Box::new(EvalError)) } }
+    fn expect_std_func_arg_string(&self, v: ValueData<'p>, _f: &str, _i: usize) -> EvalResult<Rc<str>> { match v { ValueData::String(s) => Ok(s), _ => Err(Box::new(EvalError)) } }
+}
 
 // ---- extracted, verbatim -------------------------------------------------------------------
 //@extract file=rsjsonnet-lang/src/program/data.rs item=struct:ObjectData
@@ -39,6 +53,7 @@ impl<'p> Program<'p> { fn gc_alloc<T>(&mut self, v: T) -> Gc<T> { Gc::new(v) } }
 //@extract file=rsjsonnet-lang/src/program/data.rs impl=Program methods=extend_object,object_with_field_removed
 //@extract file=rsjsonnet-lang/src/program/data.rs item=fn:extend_object_clone_field
 //@extract file=rsjsonnet-lang/src/program/data.rs item=fn:extend_object_clone_layer
+//@extract file=rsjsonnet-lang/src/program/eval/stdlib.rs impl=Evaluator methods=do_std_object_remove_key
 
 #[cfg(kani)]
 mod vharness {
@@ -64,11 +79,13 @@ mod vharness {
             E::R(d) => Some(ObjectField::Removed(d)),
         }
     }
-    fn layer(a: E, b: E) -> ObjectLayer<'static> {
+    static ONE_ASSERT: [ir::Assert<'static>; 1] = [ir::Assert(0, PhantomData)];
+    fn layer(a: E, b: E) -> ObjectLayer<'static> { layer_a(a, b, false) }
+    fn layer_a(a: E, b: E, has_assert: bool) -> ObjectLayer<'static> {
         let mut fields: FHashMap<InternedStr<'static>, ObjectField<'static>> = FHashMap::default();
         if let Some(f) = field(a) { fields.insert(NAME, f); }
         if let Some(f) = field(b) { fields.insert(OTHER, f); }
-        ObjectLayer { is_top: false, locals: &[], base_env: None, env: OnceCell::new(), fields, asserts: &[] }
+        ObjectLayer { is_top: false, locals: &[], base_env: None, env: OnceCell::new(), fields, asserts: if has_assert { &ONE_ASSERT } else { &[] } }
     }
     /// object with `n` layers (1..=MAXL); es[i] / os[i] = entries of NAME / OTHER in layer i (0 = top)
     fn object(n: usize, es: &[E; MAXL], os: &[E; MAXL]) -> ObjectData<'static> {
@@ -152,15 +169,28 @@ mod vharness {
         false
     }
 
-    //@harness props=C07 strength=bounded bound="A and B of 1..2 layers each, two names, every entry combination" clause="A + B: the layers of the result are B's layers followed by A's layers, every entry (visibility, remove depth) preserved - so the per-name view of (A + B) + C and A + (B + C) is the same list C ++ B ++ A, and {} + A, A + {} have A's view (an empty layer defines nothing)" timeout=1800
+    //@harness props=C07 strength=bounded bound="A and B of 1..2 layers each, two names, every entry combination" clause="A + B: the layers of the result are B's layers followed by A's layers, every entry (visibility, remove depth) preserved - so the per-name view of (A + B) + C and A + (B + C) is the same list C ++ B ++ A, and {} + A, A + {} have A's view (an empty layer defines nothing); the object-level asserts of every layer are kept and, if there is any, the result is marked unchecked so that they run against the combined object (late-bound self)" replay=objlayers timeout=1800
     #[kani::proof]
     #[kani::unwind(7)]
     fn extend_object_concatenates_layers() {
-        let (na, ea, oa, a) = any_object(2, 2);
-        let (nb, eb, ob, b) = any_object(2, 2);
-        let mut p = Program(PhantomData);
+        let (na, ea, oa, a0) = any_object(2, 2);
+        let (nb, eb, ob, b0) = any_object(2, 2);
+        // any layer of either operand may carry an object-level assert; both operands have been checked already
+        let fa: [bool; 2] = [kani::any(), kani::any()]; let fb: [bool; 2] = [kani::any(), kani::any()];
+        let with_asserts = |n: usize, es: &[E; MAXL], os: &[E; MAXL], f: &[bool; 2]| -> &'static ObjectData<'static> {
+            let mut supers = Vec::new(); if n == 2 { supers.push(layer_a(es[1], os[1], f[1])); }
+            Box::leak(Box::new(ObjectData { self_layer: layer_a(es[0], os[0], f[0]), super_layers: supers, fields_order: OnceCell::new(), asserts_checked: Cell::new(true) }))
+        };
+        let a = with_asserts(na, &ea, &oa, &fa); let b = with_asserts(nb, &eb, &ob, &fb);
+        let mut p = Program { str_interner: StrInterner, _p: PhantomData };
         let r = p.extend_object(a, b);
         let r = r.view();
+        // late binding of self: an assert of ANY layer speaks about the combined object, so it has to be
+        // checked again for the result (unless there is none)
+        let any_assert = fa[0] || (na == 2 && fa[1]) || fb[0] || (nb == 2 && fb[1]);
+        if any_assert { assert!(!r.asserts_checked.get(), "C07:objlayers:asserts-of-every-layer-are-rechecked-against-the-combined-object"); }
+        let mut k = 0;
+        while k < na + nb { let want = if k < nb { fb[k] } else { fa[k - nb] }; assert!(r.get_layer(k).asserts.len() == want as usize, "C07:objlayers:extend-keeps-the-asserts-of-every-layer"); k += 1; }
         assert!(1 + r.super_layers.len() == na + nb, "C07:objlayers:extend-has-all-layers-of-both");
         let mut i = 0;
         while i < na + nb {
@@ -180,7 +210,7 @@ mod vharness {
         //@known D7 kani::assume(!d7_class(n, &os));
         let before_other = o.find_field(0, OTHER).map(|(i, _)| i);
         let before_vis = o.has_visible_field(OTHER);
-        let mut p = Program(PhantomData);
+        let mut p = Program { str_interner: StrInterner, _p: PhantomData };
         let r = p.object_with_field_removed(o, NAME);
         let r = r.view();
         assert!(r.find_field(0, NAME).is_none() && !r.has_visible_field(NAME), "C07:objlayers:removed-field-no-longer-exists");
@@ -192,19 +222,36 @@ mod vharness {
         assert!(other_listed == before_other.is_some(), "C07:objlayers:other-field-still-listed");
     }
 
-    //@harness props=C07X strength=bounded clause="experiment"
+    //@harness props=C07,C01 strength=bounded bound="object of 1..2 layers, two names, every entry combination; key one of \"a\", \"b\" (interned) or \"zz\" (never interned)" clause="std.objectRemoveKey builtin: for an interned key the result is a NEW object in which the key does not exist - whatever the field's visibility was, hidden fields included - and the other field is untouched; for a key that was never interned (so no object can have it) the original object is returned" timeout=900 replay=objlayers
     #[kani::proof]
     #[kani::unwind(7)]
-    fn exp_concrete_shape() {
-        let n = 3usize;
-        let d: usize = kani::any(); kani::assume(d <= 3);
-        let es = [E::N(any_vis()), E::R(d), E::N(any_vis()), E::Absent];
-        let os = [E::Absent, E::Absent, E::Absent, E::Absent];
-        let o: &'static ObjectData<'static> = Box::leak(Box::new(object(n, &es, &os)));
-        let got = o.find_field(0, NAME).map(|(i, _)| i);
-        assert!(got == spec_lookup(n, &es, 0), "C07X:objlayers:find-field-is-first-effective-definition");
-        assert!(o.has_visible_field(NAME) == spec_visible(n, &es), "C07X:objlayers:has-visible-field-follows-the-visibility-rules");
+    fn object_remove_key_builtin_contract() {
+        let (n, es, os, o) = any_object(2, 1);
+        let which: u8 = kani::any(); kani::assume(which < 3);
+        let key: Rc<str> = if which == 0 { "a".into() } else if which == 1 { "b".into() } else { "zz".into() };
+        let had_other = o.find_field(0, if which == 0 { OTHER } else { NAME }).map(|(i, _)| i);
+        let mut p = Program { str_interner: StrInterner, _p: PhantomData };
+        let mut e = Evaluator { program: &mut p, value_stack: Vec::with_capacity(2) };
+        e.value_stack.push(ValueData::Object(Gc(o as *const _)));
+        e.value_stack.push(ValueData::String(key));
+        let r = e.do_std_object_remove_key();
+        assert!(r.is_ok() && e.value_stack.len() == 1, "C07,C01:objlayers:remove-key-stack-effect");
+        match &e.value_stack[0] {
+            ValueData::Object(res) => {
+                let res = res.view();
+                if which == 2 {
+                    assert!(std::ptr::eq(res.0, o as *const _), "C07:objlayers:unknown-key-returns-the-object-unchanged");
+                } else {
+                    let (gone, other) = if which == 0 { (NAME, OTHER) } else { (OTHER, NAME) };
+                    assert!(res.find_field(0, gone).is_none() && !res.has_field(0, gone) && !res.has_visible_field(gone), "C07:objlayers:remove-key-removes-the-field-whatever-its-visibility");
+                    assert!(res.find_field(0, other).map(|(i, _)| i) == had_other.map(|i| i + 1) && res.has_visible_field(other) == o.has_visible_field(other), "C07:objlayers:remove-key-leaves-the-other-field-intact");
+                }
+            }
+            _ => assert!(false, "C07:objlayers:remove-key-returns-an-object"),
+        }
+        core::mem::forget(e);
     }
+
     fn any_present(maxd: usize) -> E { let k: u8 = kani::any(); if k % 2 == 0 { E::N(any_vis()) } else { let d: usize = kani::any(); kani::assume(d <= maxd); E::R(d) } }
 
     //@harness props=C07 strength=bounded expect=fail clause="canary"
